@@ -336,8 +336,19 @@ func runC16(r *Run) {
 				if ip.Ret != nil {
 					continue
 				}
+				// "goes round" means the body is entered again: the way round extended by the entry of the next round (a
+				// test at the loop head of what the round just produced decides here, on the value it arrives with)
+				var ext []*ssa.BasicBlock
+				for _, s2 := range head.Succs {
+					if df.IsLiveEdge(head, s2) && blockReaches(df, s2, head, nil) && df.PathFeasible(ip.Blocks, s2) {
+						ext = append(append([]*ssa.BasicBlock{}, ip.Blocks...), s2)
+					}
+				}
+				if ext == nil {
+					continue // after this way round the loop is left
+				}
 				nBack++
-				pf := rawPathFacts(df, ip.Blocks)
+				pf := rawPathFacts(df, ext)
 				nonEmpty := core.HasFact(pf, "cmp(Writer.cutAndProcess(_, _) != 0)")
 				noError := core.HasFact(pf, "ok(Writer.cutAndProcess(_, _))")
 				// the loop may test the results of the previous round's call at its head (`for err == nil && n != 0`):
@@ -830,19 +841,19 @@ func (r *Run) refFixedByFirst(gf *core.FnFacts, phi *ssa.Phi, head *ssa.BasicBlo
 				if _, atEntry := bodyEntry[k]; atEntry || fc.Kind == "called" || fc.Kind == "stored" {
 					continue
 				}
-				isFirst := fc.Kind == "cmp" && fc.Op == "==" && fc.B.Op == "const" && fc.B.Name == "0" && fc.A.Op == "bin" && fc.A.Name == "+"
+				isFirst := fc.Kind == "cmp" && fc.Op == "==" && fc.B.Op == "const" && fc.B.Name == "0" && loopIndexTerm(fc.A)
 				if !isFirst {
 					okAll = false // a further condition on the update of the reference
 				}
 			}
 			first := false
 			for _, fc := range in {
-				if fc.Kind == "cmp" && fc.Op == "==" && fc.B.Op == "const" && fc.B.Name == "0" && fc.A.Op == "bin" && fc.A.Name == "+" {
-					first = true // (phi + 1) == 0  i.e. range index == 0
+				if fc.Kind == "cmp" && fc.Op == "==" && fc.B.Op == "const" && fc.B.Name == "0" && loopIndexTerm(fc.A) {
+					first = true // (phi + 1) == 0  i.e. range index == 0; or i == 0 of `for i := 0; …; i++`
 				}
 			}
 			for _, fc := range gf.EdgeFacts(pred, p.Block()) {
-				if fc.Kind == "cmp" && fc.Op == "==" && fc.B.Op == "const" && fc.B.Name == "0" && fc.A.Op == "bin" && fc.A.Name == "+" {
+				if fc.Kind == "cmp" && fc.Op == "==" && fc.B.Op == "const" && fc.B.Name == "0" && loopIndexTerm(fc.A) {
 					first = true
 				}
 			}
@@ -1012,6 +1023,18 @@ func (r *Run) checkEnqueueFinal(P string, f *ssa.Function) {
 			}
 		}
 	}
+	// `return err` of the queue's own error, untested: its nil and non-nil outcomes are the function's
+	for _, c := range r.callsIn(f, "BatchCutter.Add", "batchCutter.Add", "cutter.Add") {
+		for _, ri := range ff.Returns() {
+			nres := len(ri.Ret.Results)
+			if nres == 0 {
+				continue
+			}
+			if ex, ok := ri.Ret.Results[nres-1].(*ssa.Extract); ok && ex.Tuple == ssa.Value(c) {
+				n++
+			}
+		}
+	}
 	r.R.Check(n >= 1 && len(bad) == 0, P+".add.final", "E8 exit classes: from the nil-error edge of the queue's Add only success returns of Writer.Add are reachable", core.FuncName(f), r.where(f),
 		"the caller treats an error as 'not queued' (it deletes the unpublished operation and reports failure); if the operation is in the queue nevertheless, it is anchored although the client was told it was refused",
 		fmt.Sprintf("%d accepting edge(s), only success returns behind them", n), strings.Join(dedupe(bad), "; "))
@@ -1146,4 +1169,33 @@ func (r *Run) nackThroughMethod(f *ssa.Function, ff *core.FnFacts) bool {
 		}
 	}
 	return false
+}
+
+// loopIndexTerm: the index of a range loop ((φ + 1), φ starting at -1) or of a counting loop (φ merging 0 and φ + 1).
+func loopIndexTerm(t *core.Term) bool {
+	if t == nil {
+		return false
+	}
+	if t.Op == "bin" && t.Name == "+" {
+		return true
+	}
+	if t.Op != "phi" {
+		return false
+	}
+	phi, ok := t.Val.(*ssa.Phi)
+	if !ok || len(phi.Edges) != 2 {
+		return false
+	}
+	zero, step := false, false
+	for _, e := range phi.Edges {
+		if k, isK := constInt(e); isK && k == 0 {
+			zero = true
+		}
+		if b, isB := e.(*ssa.BinOp); isB && b.Op == token.ADD && b.X == ssa.Value(phi) {
+			if k, isK := constInt(b.Y); isK && k == 1 {
+				step = true
+			}
+		}
+	}
+	return zero && step
 }
